@@ -32,6 +32,15 @@ pub broadcast proof fn {nm}_obeys()
 pub broadcast proof fn {nm}(a: {t})
     ensures #[trigger] <{t} as IntoSpec<{t}>>::into_spec(a) == a {{}}
 """)
+        names += [nm + '_from', nm + '_from_obeys']
+        o.append(f"""
+#[verifier::external_body]
+pub broadcast proof fn {nm}_from_obeys()
+    ensures #[trigger] <{t} as FromSpec<{t}>>::obeys_from_spec() {{}}
+#[verifier::external_body]
+pub broadcast proof fn {nm}_from(a: {t})
+    ensures #[trigger] <{t} as FromSpec<{t}>>::from_spec(a) == a {{}}
+""")
     o.append('pub broadcast group group_into_refl { %s }\n' % ', '.join(names))
     return ''.join(o)
 
